@@ -162,6 +162,16 @@ fn collect_files(dir: &Path) -> BTreeMap<String, Vec<u8>> {
                 continue;
             }
             if let Ok(b) = std::fs::read(e.path()) {
+                // `-i` echoes the grammar file's path as given (token locations).  In-process the
+                // path is this worker's private scratch directory - an input that differs between
+                // worker processes, not an output: reduce it to the relative name the command
+                // line run uses, so that event logs do not depend on the worker that ran a case.
+                let b = if name == "g-internal.txt" {
+                    let prefix = format!("{}/", dir.display());
+                    String::from_utf8_lossy(&b).replace(&prefix, "").into_bytes()
+                } else {
+                    b
+                };
                 m.insert(name, b);
             }
         }
@@ -225,7 +235,9 @@ impl parol::build::BuildListener for FileListener<'_> {
         _input: &str,
         grammar: &parol::ParolGrammar,
     ) -> parol::parol_runtime::Result<()> {
-        let _ = std::fs::write(self.dir.join("g-internal.txt"), format!("{grammar}"));
+        if std::env::var_os("VERIF_C24_NO_INTERNAL").is_none() {
+            let _ = std::fs::write(self.dir.join("g-internal.txt"), format!("{grammar}"));
+        }
         Ok(())
     }
 
@@ -234,7 +246,7 @@ impl parol::build::BuildListener for FileListener<'_> {
         stage: parol::build::IntermediateGrammar,
         config: &parol::GrammarConfig,
     ) -> parol::parol_runtime::Result<()> {
-        if stage == parol::build::IntermediateGrammar::Untransformed {
+        if stage == parol::build::IntermediateGrammar::Untransformed && std::env::var_os("VERIF_C24_NO_UNTRANSFORMED").is_none() {
             if let Ok(t) = parol::render_par_string(config, true) {
                 let _ = std::fs::write(self.dir.join("g-untransformed.par"), t);
             }
